@@ -59,8 +59,9 @@ func (s *SummaryStatistics) Count() float64 {
 }
 
 func (s *SummaryStatistics) Sum() float64 {
-	// Better error bounds to add both terms as the final sum
-	tmp := s.sum + s.sumCompensation
+	// Better error bounds to add both terms as the final sum. The compensation
+	// is what has been added in excess: it has to be subtracted.
+	tmp := s.sum - s.sumCompensation
 	if math.IsNaN(tmp) && math.IsInf(s.simpleSum, 0) {
 		// If the compensated sum is spuriously NaN from accumulating one or more same-signed infinite
 		// values, return the correctly-signed infinity stored in simpleSum.
@@ -101,7 +102,8 @@ func (s *SummaryStatistics) AddToSum(addend float64) {
 func (s *SummaryStatistics) MergeWith(o *SummaryStatistics) {
 	s.count += o.count
 	s.sumWithCompensation(o.sum)
-	s.sumWithCompensation(o.sumCompensation)
+	// Subtract the compensation of the other sum, which is what it holds in excess.
+	s.sumWithCompensation(-o.sumCompensation)
 	s.simpleSum += o.simpleSum
 	if o.min < s.min {
 		s.min = o.min
